@@ -12,6 +12,8 @@ package main
 
 import (
 	"context"
+	"encoding/json"
+	"time"
 	"fmt"
 	"os"
 	"os/exec"
@@ -336,4 +338,114 @@ func replayFindings(prop, root string, known []KnownFinding, rep *thoroughReport
 			rep.FindingsReplayed[k.ID] = "replay did not run: " + firstLines(string(out), 2)
 		}
 	}
+}
+
+// ---- bounded stand-ins ----
+
+type boundedResult struct {
+	Name   string
+	Bound  string
+	OK     bool
+	Cases  string
+	Output string
+}
+
+// runBounded runs the bounded stand-ins of the functions taking part in prop: each is a Go test under /verif/bounded that
+// exercises the REAL function exhaustively over a stated finite domain (injected with go test -overlay).
+func (v *Verifier) runBounded(prop, root string) []boundedResult {
+	var out []boundedResult
+	for _, c := range v.cs.Order {
+		for _, b := range c.BoundedChecks {
+			has := false
+			ps := b.Props
+			if len(ps) == 0 {
+				ps = c.Props
+			}
+			for _, p := range ps {
+				if p == prop {
+					has = true
+				}
+			}
+			if !has {
+				continue
+			}
+			res := boundedResult{Name: c.Key + ".bounded." + b.Label, Bound: b.Bound}
+			var pkgDir string
+			for _, p := range v.pkgs {
+				if p.PkgPath == c.Pkg && len(p.GoFiles) > 0 {
+					pkgDir = filepath.Dir(p.GoFiles[0])
+				}
+			}
+			src := filepath.Join(root, "bounded", b.File)
+			if pkgDir == "" {
+				res.Output = "package directory not found"
+				out = append(out, res)
+				continue
+			}
+			if _, err := os.Stat(src); err != nil {
+				res.Output = "harness file missing: " + src
+				out = append(out, res)
+				continue
+			}
+			work, err := os.MkdirTemp("", "govc_bounded_")
+			if err != nil {
+				res.Output = err.Error()
+				out = append(out, res)
+				continue
+			}
+			repl := map[string]string{filepath.Join(pkgDir, "zz_govc_bounded_test.go"): src}
+			// harness files of the same package may share helpers: all of them are injected
+			if others, _ := filepath.Glob(filepath.Join(root, "bounded", "*_test.go")); len(others) > 0 {
+				for i, o := range others {
+					if o == src {
+						continue
+					}
+					if hb, err := os.ReadFile(o); err == nil && strings.Contains(string(hb), "\npackage "+filepath.Base(pkgDir)+"\n") || packageClauseIs(o, v, c.Pkg) {
+						repl[filepath.Join(pkgDir, fmt.Sprintf("zz_govc_bounded%d_test.go", i))] = o
+					}
+				}
+			}
+			ob, _ := json.Marshal(map[string]interface{}{"Replace": repl})
+			ov := filepath.Join(work, "overlay.json")
+			os.WriteFile(ov, ob, 0o644)
+			ctx, cancel := context.WithTimeout(context.Background(), 300*time.Second)
+			cmd := exec.CommandContext(ctx, "go", "test", "-overlay", ov, "-vet=off", "-count=1", "-timeout", "240s", "-v", "-run", "^"+b.Test+"$", ".")
+			cmd.Dir = pkgDir
+			cmd.Env = append(os.Environ(), "GOFLAGS=-mod=mod", "GOPROXY=off", "GOSUMDB=off", "GOTOOLCHAIN=local")
+			o, _ := cmd.CombinedOutput()
+			cancel()
+			os.RemoveAll(work)
+			text := string(o)
+			for _, ln := range strings.Split(text, "\n") {
+				if strings.HasPrefix(strings.TrimSpace(ln), "BOUNDED-OK") {
+					res.OK = true
+					res.Cases = strings.TrimSpace(strings.TrimPrefix(strings.TrimSpace(ln), "BOUNDED-OK"))
+				}
+			}
+			if strings.Contains(text, "BOUNDED-FAIL") || strings.Contains(text, "--- FAIL") || !strings.Contains(text, "\nok") {
+				res.OK = false
+			}
+			if !res.OK {
+				if len(text) > 3000 {
+					text = text[:3000]
+				}
+				res.Output = text
+			}
+			out = append(out, res)
+		}
+	}
+	return out
+}
+
+func packageClauseIs(file string, v *Verifier, pkgPath string) bool {
+	b, err := os.ReadFile(file)
+	if err != nil {
+		return false
+	}
+	for _, p := range v.allTypesPkgs {
+		if p.Path() == pkgPath {
+			return strings.Contains(string(b), "\npackage "+p.Name()+"\n") || strings.HasPrefix(string(b), "package "+p.Name()+"\n")
+		}
+	}
+	return false
 }
